@@ -261,6 +261,11 @@ def _run_unit_once(unit, tier, seed, carry):
     open(cpath, 'w', encoding='utf-8').write(ctext)
     json.dump(table, open(os.path.join(wdir, 'linetable.json'), 'w'))
     res['meta'] = meta
+    if meta.get('structure_changed'):
+        res['degraded'] = True
+    for la in meta.get('lost_anchors', []):
+        props = sorted({p for n in la['clauses'] for p in n.split('.')[0].split('+') if re.fullmatch(r'C\d{2,3}', p)})
+        res.setdefault('undecided_scoped', []).append({'msg': 'lift (block skipped): ' + la['msg'], 'properties': props or list(cfg['properties'])})
     trusted, forbidden = trusted_scan(text, table)
     res['trusted_base'] = trusted
     if forbidden:
@@ -357,7 +362,10 @@ def _run_unit_once(unit, tier, seed, carry):
 # provided trait methods for which a shim with a real contract exists (applied on demand, when the verifier reports the method
 # as unsupported in lifted code): name -> (shim, receiver prefix)
 SHIM_TABLE = {'nth': ('vx_iter_nth', ''), 'count': ('vx_iter_count', ''), 'any': ('vx_iter_any', ''), 'all': ('vx_iter_all', ''),
-              'last': ('vx_iter_last', ''), 'map': ('vx_iter_map', ''), 'peekable': ('vx_peekable', '')}
+              'last': ('vx_iter_last', ''), 'map': ('vx_iter_map', ''), 'peekable': ('vx_peekable', ''),
+              'filter': ('vx_iter_filter', ''), 'flat_map': ('vx_iter_flat_map', ''), 'map_while': ('vx_iter_map_while', ''), 'fold': ('vx_iter_fold', ''),
+              'collect': ('vx_collect_unconstrained', ''), 'split': ('vx_split', '')}
+UNCONSTRAINED_SHIMS = {'collect'}
 
 
 def _unsupported(diags):
@@ -369,6 +377,11 @@ def _unsupported(diags):
         if not m:
             continue
         pth = m.group(1)
+        if pth.endswith('::split') and 'str' in pth:     # inherent str::split: Split<P> crashes this Verus; use the eager shim
+            methods.append('split')
+            continue
+        if pth == 'core::str::iter::Split':
+            continue
         if '%default%' in pth:
             methods.append(pth.split('%default%')[-1])
             continue
@@ -400,6 +413,8 @@ def run_unit(unit, tier='quick', seed=0):
             for mname in methods:
                 if mname in SHIM_TABLE and mname not in carry.setdefault('auto_shims', {}):
                     carry['auto_shims'][mname] = SHIM_TABLE[mname]
+                    if mname in UNCONSTRAINED_SHIMS:
+                        carry.setdefault('auto_havoc', []).append(f'Iterator::{mname} (unconstrained shim)')
                     new = True
             for dcl, pth in zip(decls, paths):
                 if dcl not in carry.setdefault('auto_havoc_decls', []):
@@ -463,6 +478,9 @@ def check_property(pid, tier='quick', seed=0):
     for r in results:
         for u in r['undecided']:
             undecided.append(f"{r['unit']}: {u}")
+        for su in r.get('undecided_scoped', []):
+            if pid in su['properties']:
+                undecided.append(f"{r['unit']}: {su['msg']}")
         for f in r['failures']:
             if pid in f['properties']:
                 violations.append((r['unit'], f))
